@@ -138,7 +138,12 @@ func (b *B) TypeDeclNode(t *Type, f *File) *Node {
 		t.Grouped = 1
 		if b.R != nil && len(t.Impl) == 0 && b.R.Chance(1, 4) {
 			t.Grouped = 2
+		} else if b.R != nil && len(t.Impl) == 0 && b.R.Chance(1, 6) {
+			t.Grouped = 3
 		}
+	}
+	if t.Grouped == 3 {
+		n.Pre = []*Line{b.line("type "+t.Name+" (struct {", uses...)}
 	}
 	grouped := t.Grouped == 2
 	if grouped {
@@ -169,6 +174,9 @@ func (b *B) TypeDeclNode(t *Type, f *File) *Node {
 	fld("P, Q", "int") // two names in one field declaration: one doc comment covers both
 	fld("In", "Inner"+t.Name)
 	n.Post = []*Line{b.line("}")}
+	if t.Grouped == 3 {
+		n.Post = []*Line{b.line("})")}
+	}
 	return n
 }
 
@@ -261,6 +269,8 @@ type Env struct {
 	OtherFunc *Func // an unannotated function of that package (keeps the import used)
 	Pass   *Func // func PassT(x *T) *T of t's package (any annotation mix): used to nest uses inside one expression
 	Getter *Func // non-nil: values are obtained through this package-local helper (the file need not import the type's package)
+	AliasM *Func // a method declared with an alias of t as receiver type: func (r AlT) ViaAlias()  (nil unless hostile)
+	ParenM *Func // a method declared with a parenthesised receiver type: func (r (*T)) ViaParen()
 }
 
 func callNew(t *Type, env *Env) (string, *Use) {
@@ -314,8 +324,12 @@ func immTemplates() []Tmpl {
 	// FREE shapes
 	ts = append(ts, simple("free-idx-op", UFieldIndexAssign, "S", func(x string) string { return x + ".S[0] += 1" }, true, ""))
 	ts = append(ts, simple("free-idx-inc", UFieldIndexAssign, "S", func(x string) string { return x + ".S[0]++" }, true, ""))
-	ts = append(ts, simple("free-paren-idx", UFieldIndexAssign, "S", func(x string) string { return "(" + x + ".S)[0] = 1" }, true, ""))
-	ts = append(ts, simple("free-paren-sel", UFieldAssign, "F", func(x string) string { return "(" + x + ".F) = 1" }, true, ""))
+	// parentheses around the written operand do not change what is written
+	ts = append(ts, simple("paren-idx", UFieldIndexAssign, "S", func(x string) string { return "(" + x + ".S)[0] = 1" }, false, "paren-target"))
+	ts = append(ts, simple("paren-idx-whole", UFieldIndexAssign, "S", func(x string) string { return "(" + x + ".S[0]) = 1" }, false, "paren-target"))
+	ts = append(ts, simple("paren-sel", UFieldAssign, "F", func(x string) string { return "(" + x + ".F) = 1" }, false, "paren-target"))
+	ts = append(ts, simple("paren-sel-op", UFieldOpAssign, "F", func(x string) string { return "(" + x + ".F) += 1" }, false, "paren-target"))
+	ts = append(ts, simple("paren-sel-inc", UFieldIncDec, "F", func(x string) string { return "(" + x + ".F)++" }, false, "paren-target"))
 	ts = append(ts, Tmpl{Name: "free-range", Cat: IMM, Kind: "struct", Make: func(b *B, t *Type, env *Env) []*Node {
 		x, a := acquire(b, t, env)
 		n := &Node{Pre: []*Line{b.line("for "+x+".F = range 2 {", free(useT(UFieldAssign, t, "F"), IMM))}, Post: []*Line{b.line("}")}}
@@ -483,6 +497,20 @@ func ctorTemplates() []Tmpl {
 		return []*Node{n, b.stmt("_ = " + x)}
 	}})
 	// FREE for CTOR
+	ts = append(ts, one("new-paren-callee", true, "$x := (new)(%T)", func(t *Type) []*Use {
+		u := useT(UNew, t, "")
+		u.Feature = "paren-new"
+		return []*Use{u, free(refT(t, SubOther), TONL)}
+	}, true))
+	// a local function that shadows the builtin: new(x) allocates nothing
+	ts = append(ts, Tmpl{Name: "shadowed-new", Cat: CTOR, Kind: "struct", NoImp: true, Make: func(b *B, t *Type, env *Env) []*Node {
+		x := b.v()
+		c, u := callNew(t, env)
+		in := useT(UVarInert, t, "")
+		in.Feature = "shadowed-new"
+		blk := &Node{Pre: []*Line{b.line("{")}, Kids: []*Node{b.stmt("new := func(_ any) {}"), b.stmt("new("+x+")", in)}, Post: []*Line{b.line("}")}}
+		return []*Node{b.stmt(x+" := "+c, u), blk}
+	}})
 	ts = append(ts, one("free-new-ptr", true, "$x := new(*%T)", func(t *Type) []*Use { return []*Use{free(useT(UNew, t, ""), CTOR), free(refT(t, SubOther), TONL)} }, true))
 	ts = append(ts, one("free-make", true, "$x := make([]%T, 1)", func(t *Type) []*Use { return []*Use{free(refT(t, SubOther), TONL)} }, true))
 	ts = append(ts, one("free-array", true, "$x := [2]%T{}", func(t *Type) []*Use { return []*Use{free(refT(t, SubOther), TONL)} }, true))
@@ -515,6 +543,19 @@ func useTemplates() []Tmpl {
 		x, y := b.v(), b.v()
 		c, u := callNew(t, env)
 		return []*Node{b.stmt(x+" := "+c, u), b.stmt(y+" := "+x+"."+env.Reset.Name, &Use{Kind: UMethodRef, Fn: env.Reset}), b.stmt(y + "()")}
+	}})
+	// methods whose receiver type is spelled through an alias / in parentheses are methods of t all the same
+	ts = append(ts, Tmpl{Name: "method-call-odd-receiver-spelling", Cat: TONL, NoImp: true, Make: func(b *B, t *Type, env *Env) []*Node {
+		x := b.v()
+		c, u := callNew(t, env)
+		ns := []*Node{b.stmt(x+" := "+c, u)}
+		if env.AliasM != nil {
+			ns = append(ns, b.stmt(x+"."+env.AliasM.Name+"()", &Use{Kind: UMethodRef, Fn: env.AliasM, Call: true, Feature: "alias-receiver-method"}))
+		}
+		if env.ParenM != nil {
+			ns = append(ns, b.stmt(x+"."+env.ParenM.Name+"()", &Use{Kind: UMethodRef, Fn: env.ParenM, Call: true, Feature: "paren-receiver-method"}))
+		}
+		return append(ns, b.stmt("_ = "+x))
 	}})
 	// a parenthesised callee is still a call of the function / method
 	ts = append(ts, Tmpl{Name: "paren-callee-call", Cat: TONL, Make: func(b *B, t *Type, env *Env) []*Node {
@@ -572,6 +613,8 @@ func useTemplates() []Tmpl {
 			b.stmt(y+"."+env.Reset.Name+"()", &Use{Kind: UMethodRef, Fn: env.Reset, Call: true, Feature: "promoted-method"}),
 			b.stmt(z+" := "+y+"."+env.Val.Name, &Use{Kind: UMethodRef, Fn: env.Val, Feature: "promoted-method"}),
 			b.stmt(z + "()"),
+			b.stmt("(*"+on+")."+env.Reset.Name+"(&"+x+")", &Use{Kind: UMethodRef, Fn: env.Reset, Call: true, Feature: "promoted-method-expression"}),
+			b.stmt(on+"."+env.Val.Name+"("+x+")", &Use{Kind: UMethodRef, Fn: env.Val, Call: true, Feature: "promoted-method-expression"}),
 		}
 		fn.Post = []*Line{b.line("}")}
 		return []*Node{d1, d2, fn}
